@@ -15,8 +15,17 @@ def run(rep, tier, seed, rng):
             distinct.add(json.dumps(c, sort_keys=True))
         if r["tags"] & {"crash", "rc", "predicted-panic"}:
             ndis += 1
-            rep.violation("model and implementation disagree: " + "; ".join(r["dis"])[:400], gen_common.replay_data(r), found_input=False)
+            rep.violation("model and implementation disagree: " + "; ".join(r["dis"])[:400], gen_common.replay_data(r), found_input=("crash" in r["tags"]))
             continue
+        if r["model"]["kind"] == "ok" and r["impl"]["rc"] == 0:
+            # a cycle among build dependencies drops the build (C19_reachable_cycle_drops): what the proved walk refuses
+            # as a cycle must not be among the implementation's configured builds
+            cyc = {(x[0], x[1]) for x in r["model"]["nobuilds"] if x[2] == "cycle"}
+            emitted = [(b["builder"], b["app"]) for b in r["impl"]["builds"] if (b["builder"], b["app"]) in cyc]
+            if emitted:
+                ndis += 1
+                rep.violation("builds with a cycle among their build dependencies are emitted instead of dropped: %s" % emitted[:4],
+                              gen_common.replay_data(r, builds=emitted), found_input=True)
         if r["impl_parsed"] and r["impl"]["rc"] == 0:
             for clause, src, ds in mc.download_order(r["impl_parsed"], c[0], builds=r["impl"]["builds"]):
                 ndis += 1
@@ -37,7 +46,7 @@ def run(rep, tier, seed, rng):
             elif "nobuilds" in r["tags"] or "configured" in r["tags"]:
                 ndis += 1
                 rep.violation("configured builds differ (build-dependency cycle handling): " + "; ".join(r["dis"])[:300],
-                              gen_common.replay_data(r), found_input=False)
+                              gen_common.replay_data(r), found_input=("crash" in r["tags"]))
     rep.cov.update(evaluations=len(cases), distinct_nontrivial=len(distinct),
                    rule="corpus + random projects from the build-focused generator (custom builds with outs, is_build_dep / is_global_build_dep modules in random "
                         "uses/depends graphs, cycles among build deps); `|` sections of compile/link/custom statements compared with the proved model; "
